@@ -14,8 +14,17 @@
     round r=<ids> w=<ids> e=<ids> out=<tokens>        (select, poll)
     round ev=<c:ioe,…> out=<tokens>                   (epoll)
   ids: comma separated or `-`;  token: kind.c.st.eli.ep.bs.wh
+
+  mode tpc (thread-per-connection, Mhd.Model.LoopTpc; one model thread per connection):
+    tnew <c> tmo=<ms>                                  the daemon thread created the connection's thread
+    tstep <c> r=<0|1> w=<0|1> e=<0|1> [res=1] out=<tokens>
+                                                       the thread's blocking call returned with this readiness; res=1: the
+                                                       daemon thread processed a resume between the handlers and the loop head
+    tresume <c>                                        MHD_resume_connection
+    tdaemon                                            one cycle of the daemon thread (resumes, cleanup of exited threads)
 -/
 import Mhd.Model.LoopRounds
+import Mhd.Model.LoopTpc
 import Driver.Common
 open Mhd.Loop Mhd.Gen.Loop Driver
 
@@ -28,10 +37,17 @@ structure Outc where
   bs : Bool
   wh : Wh
 
+/-- one connection thread of the thread-per-connection mode -/
+structure TThr where
+  t : TState Unit
+  blk : Option TBlock        -- the blocking call it is parked in; none = it has left its loop
+  resuming : Bool := false
+
 structure DSt where
   mode : String := "select"
   d : Daemon Unit := {}
   parkHint : Hint := .none      -- pollthr: the timeout class poll() was last called with
+  ths : List TThr := []         -- tpc
 
 def splitList (s : String) : List String :=
   if s == "-" || s == "" then [] else s.splitOn ","
@@ -123,9 +139,72 @@ def parseEvs (s : String) : Option (List EpEv) :=
       some (EpEv.mk c (m.contains 'i') (m.contains 'o') (m.contains 'e'))
     | _ => none
 
+def showWh : Wh → String
+  | .active => "A" | .susp => "S" | .cleanup => "C"
+
+def showBlock : Option TBlock → String
+  | none => "texit"
+  | some b =>
+    if b.onItc then s!"tpark on=itc ev=r tmo={if b.wait == .bounded250 then "250" else "?"}"
+    else
+      let ev := (if b.r then "r" else "") ++ (if b.w then "w" else "") ++ (if b.e then "e" else "")
+      let tmo := match b.wait with | .forever => "inf" | .zero => "0" | .deadline => "some" | .bounded250 => "250"
+      s!"tpark on=sock ev={ev} tmo={tmo}"
+
+def showThreads (ths : List TThr) : String :=
+  let srt := fun (l : List Nat) => l.mergeSort (fun a b => a ≤ b)
+  let pick := fun (wh : Wh) => srt ((ths.filter (fun th => th.t.wh == wh)).map (·.t.c.id))
+  s!"A={showIds (pick .active)} S={showIds (pick .susp)} C={showIds (pick .cleanup)}"
+
+def tpcLine (s : DSt) (ws : List String) : DSt × List String :=
+  match ws with
+  | "tnew" :: c :: rest =>
+    match c.toNat?, ((kvOf rest "tmo").getD "0").toNat? with
+    | some c, some tmo =>
+      if s.ths.any (fun th => th.t.c.id == c) then (s, ["bad-op"]) else
+      let loc0 : Local Unit := { st := stInit, eli := .read, rdReady := false, wrReady := false, bufSpace := true, w := () }
+      let t0 : TState Unit := { c := { id := c, tmo := tmo, loc := loc0 }, wh := .active }
+      let h := tpcHead (opsOf []) t0
+      ({ s with ths := s.ths ++ [{ t := h.1, blk := h.2 }] }, [s!"tnew wh={showWh h.1.wh} {showBlock h.2}"])
+    | _, _ => (s, ["bad-op"])
+  | "tstep" :: c :: rest =>
+    match c.toNat?, ((kvOf rest "out").getD "-" |> splitList).mapM parseOutc with
+    | some c, some tbl =>
+      match s.ths.find? (fun th => th.t.c.id == c) with
+      | none => (s, ["bad-op"])
+      | some th =>
+        match th.blk with
+        | none => (s, ["bad-op"])
+        | some b =>
+          let ops := opsOf tbl
+          let flag := fun k => (kvOf rest k).getD "0" != "0"
+          let t0 : TState Unit := { th.t with c := { th.t.c with k := 0 }, log := [] }
+          let t1 := tpcTail ops t0 b (flag "r") (flag "w") (flag "e")
+          let t2 := if flag "res" then tpcResumed t1 else t1
+          let h := tpcHead ops t2
+          let calls := ",".intercalate (h.1.log.reverse.map showEv)
+          let th' : TThr := { th with t := h.1, blk := h.2, resuming := if flag "res" then false else th.resuming }
+          ({ s with ths := s.ths.map (fun x => if x.t.c.id == c then th' else x) },
+           [s!"tstep calls=[{calls}] wh={showWh h.1.wh} {showBlock h.2}"])
+    | _, _ => (s, ["bad-op"])
+  | ["tresume", c] =>
+    match c.toNat? with
+    | some c =>
+      if !(s.ths.any (fun th => th.t.c.id == c && th.t.wh == .susp)) then (s, ["bad-op"]) else
+      ({ s with ths := s.ths.map (fun th => if th.t.c.id == c then { th with resuming := true } else th) }, ["ok"])
+    | none => (s, ["bad-op"])
+  | ["tdaemon"] =>
+    let ths1 := s.ths.map (fun th => if th.resuming then { th with t := tpcResumed th.t, resuming := false } else th)
+    let ths2 := ths1.filter (fun th => !(th.blk.isNone && th.t.wh == .cleanup))
+    ({ s with ths := ths2 }, [s!"tdaemon {showThreads ths2}"])
+  | ["tstate"] => (s, [s!"tstate {showThreads s.ths}"])
+  | _ => (s, ["bad-op"])
+
 def stepLine (s : DSt) (ws : List String) : DSt × List String :=
+  if s.mode == "tpc" && (match ws with | w :: _ => w.startsWith "t" | [] => false) then tpcLine s ws else
   match ws with
   | "mode" :: m :: rest =>
+    if m == "tpc" then ({ mode := m }, ["ok"]) else
     if m ∈ ["select", "poll", "epoll", "pollthr"] then
       let sus := (kvOf rest "suspend").getD "1" != "0"
       ({ mode := m, d := { epoll := m == "epoll", allowSuspend := sus } }, ["ok"])
